@@ -64,6 +64,39 @@ pub trait NamingContext {
         }
     }
 
+    /// Compute the serialized name for an enum variant based on serde attributes
+    ///
+    /// Priority:
+    /// 1. Variant-level `#[serde(rename = "...")]` takes precedence
+    /// 2. Enum-level `#[serde(rename_all = "...")]` applies serde's rule for *variants*
+    ///    (`HelloWorld` -> `HELLO_WORLD`), which differs from the rule for fields
+    /// 3. Otherwise the Rust name is kept (no default case applies to variants)
+    fn compute_variant_name(
+        &self,
+        variant_name: &str,
+        variant_rename: &Option<String>,
+        enum_rename_all: &Option<RenameRule>,
+    ) -> String {
+        if let Some(rename) = variant_rename {
+            rename.to_string()
+        } else if let Some(convention) = enum_rename_all {
+            if matches!(convention, RenameRule::CamelCase) {
+                // RenameRule::apply_to_variant byte-slices the first character
+                return match variant_name.chars().next() {
+                    Some(first) => {
+                        let mut camel = first.to_ascii_lowercase().to_string();
+                        camel.push_str(&variant_name[first.len_utf8()..]);
+                        camel
+                    }
+                    None => variant_name.to_string(),
+                };
+            }
+            convention.apply_to_variant(variant_name)
+        } else {
+            variant_name.to_string()
+        }
+    }
+
     /// Compute the serialized name for a parameter based on serde attributes
     ///
     /// Priority:
@@ -340,6 +373,23 @@ impl FieldContext {
     }
 }
 
+impl FieldContext {
+    /// Populate this context from the FieldInfo of an enum variant: like `from_field_info`,
+    /// but the serialized name follows serde's rules for variants
+    pub fn from_variant_info<V: TypeVisitor>(
+        self,
+        variant: &FieldInfo,
+        enum_rename_all: &Option<RenameRule>,
+        visitor: &V,
+    ) -> Self {
+        let serialized_name =
+            self.compute_variant_name(&variant.name, &variant.serde_rename, enum_rename_all);
+        let mut context = self.from_field_info(variant, enum_rename_all, visitor);
+        context.serialized_name = serialized_name;
+        context
+    }
+}
+
 /// Template context wrapper for StructInfo with computed TypeScript-specific fields
 #[derive(Debug, Clone, Serialize, Deserialize)]
 #[serde(rename_all = "camelCase")]
@@ -379,11 +429,19 @@ impl StructContext {
             .fields
             .iter()
             .map(|field| {
-                FieldContext::new(&self.config).from_field_info(
-                    field,
-                    &struct_info.serde_rename_all,
-                    visitor,
-                )
+                if struct_info.is_enum {
+                    FieldContext::new(&self.config).from_variant_info(
+                        field,
+                        &struct_info.serde_rename_all,
+                        visitor,
+                    )
+                } else {
+                    FieldContext::new(&self.config).from_field_info(
+                        field,
+                        &struct_info.serde_rename_all,
+                        visitor,
+                    )
+                }
             })
             .collect();
 
